@@ -403,6 +403,77 @@ theorem derivedSpecD_wf_ok {Pi M : Nat} {plains : List Nat} {S : List Ev} (h : W
       simp only [plainEv, Elem.ofTok, List.mem_singleton] at hy
       rw [hy]; rfl
 
+/-! ### the specification commutes with tag-preserving maps of the elements -/
+
+theorem pick_map (gE : Elem → Elem) (hg : ∀ e, (gE e).tag = e.tag) (D : List CF.Ev) (κ : Tag) (q : Nat) :
+    CF.pick (D.map (fun x => (x.1, gE x.2))) κ q = (CF.pick D κ q).map gE := by
+  unfold CF.pick
+  rw [List.find?_map, Option.map_map, Option.map_map]
+  have : ((fun e : CF.Ev => decide (e.1 = q ∧ CF.pre e.2.tag κ)) ∘ fun x : CF.Ev => (x.1, gE x.2))
+      = (fun e : CF.Ev => decide (e.1 = q ∧ CF.pre e.2.tag κ)) := by
+    funext x
+    simp only [Function.comp, hg]
+  rw [this]
+  rfl
+
+theorem specE_map {P : Nat} (gE : Elem → Elem) (hg : ∀ e, (gE e).tag = e.tag) (D : List CF.Ev) :
+    specE P (D.map (fun x => (x.1, gE x.2))) = (specE P D).map (fun x => (x.1, x.2.map gE)) := by
+  unfold specE
+  have htags : (D.map (fun x : CF.Ev => (x.1, gE x.2))).map (fun x => x.2.tag) = D.map (fun x => x.2.tag) := by
+    rw [List.map_map]
+    apply List.map_congr_left
+    intro x _
+    simp only [Function.comp, hg]
+  have hcomp : completeB P (D.map (fun x : CF.Ev => (x.1, gE x.2))) = completeB P D := by
+    funext κ
+    unfold completeB
+    apply List.all_congr rfl
+    intro q
+    rw [List.any_map]
+    apply List.any_congr rfl
+    intro x
+    simp only [Function.comp, hg]
+  rw [htags, hcomp, List.map_map]
+  apply List.map_congr_left
+  intro κ _
+  simp only [Function.comp, CF.picks, Prod.mk.injEq, true_and]
+  rw [List.map_filterMap]
+  apply CF.filterMap_congr'
+  intro q _
+  exact pick_map gE hg D κ q
+
+theorem specE_perm {P : Nat} {R R' : List CF.Ev} (hp : R'.Perm R) (hwf : CF.WF P R) :
+    (specE P R').Perm (specE P R) :=
+  ((CF_out_perm_specE (CF.WF_perm P hp hwf)).symm.trans (CF.out_perm P R R' hp hwf)).trans (CF_out_perm_specE hwf)
+
+theorem mem_picks {P : Nat} {D : List CF.Ev} {κ : Tag} {e : Elem} (h : e ∈ CF.picks P D κ) : ∃ x ∈ D, x.2 = e := by
+  unfold CF.picks at h
+  obtain ⟨q, _, hq⟩ := List.mem_filterMap.mp h
+  unfold CF.pick at hq
+  cases hf : D.find? (fun e => decide (e.1 = q ∧ CF.pre e.2.tag κ)) with
+  | none => rw [hf] at hq; simp at hq
+  | some x =>
+    rw [hf] at hq
+    simp only [Option.map_some, Option.some.injEq] at hq
+    exact ⟨x, List.mem_of_find?_eq_some hf, hq⟩
+
+theorem renderCF_map_perm (κ : Tag) (gE : Elem → Elem) : ∀ (l : List Elem), (∀ e ∈ l, (gE e).toks.Perm e.toks) →
+    (renderCF κ (l.map gE)).Perm (renderCF κ l) := by
+  intro l h
+  unfold renderCF retagAll schemaOf
+  apply List.Perm.map
+  rw [List.flatMap_map]
+  exact flatMap_perm_pointwise h
+
+theorem EmRel.canon {out : List Emit} {N : List (Tag × List Elem)} (h : EmRel out N) (gE : Elem → Elem)
+    (hg : ∀ x ∈ N, ∀ e ∈ x.2, (gE e).toks.Perm e.toks) : EmRel out (N.map (fun x => (x.1, x.2.map gE))) := by
+  induction h with
+  | nil => exact EmRel.nil
+  | @cons e x es xs hp _ ih =>
+    simp only [List.map_cons]
+    refine EmRel.cons ?_ (ih (fun y hy => hg y (List.mem_cons_of_mem _ hy)))
+    exact hp.trans (renderCF_map_perm x.1 gE x.2 (hg x (by simp))).symm
+
 theorem elemOK_lift {S : List Ev} (hr : Rooted S) {e : Ev} (he : e ∈ S) : ElemOK (liftEv e).2 := by
   refine ⟨hr e he, by simp [liftEv, Elem.ofTok], ?_⟩
   intro y hy
@@ -416,16 +487,14 @@ theorem canonEv_plain {M : Nat} (items : List Item) {e : Ev} (he : e.1 < M) :
     normEmit_eq_of_sorted (List.Perm.refl _) (by simpa using he) (by simp) (by simp)
   simp [Elem.ofTok, this]
 
-/-- **nested `dot[dot[p0 … p(Pi-1)], plain ports]`, any arrival order.** The outer combinator is fed a stream `D`
-    of elements which — after sorting the entries of every element by port — is a permutation of the specified
-    element stream `derivedSpecD` (a function of the input stream only: the specified emissions of the inner dot
-    product and the tokens of the plain ports), and it emits, schema by schema up to the order of the entries,
-    exactly one combination per complete tag of `D`. -/
+/-- **nested `dot[…, dot[p0 … p(Pi-1)], …]`, any arrival order.** The nested run raises nothing and emits, schema by
+    schema up to the order of the entries, exactly one combination per complete tag of the specified element
+    stream `derivedSpecD` (a function of the input stream only: the specified emissions of the inner dot product,
+    entries in port order, and the tokens of the plain ports). -/
 theorem nested_dot_any_order {Pi M : Nat} {plains : List Nat} {items : List Item} {i0 : Nat}
     (hs : Shape items i0 .dot Pi plains) (S es : List Ev) (h : WFNestD Pi M plains S) (hp : es.Perm S) :
     (runNested items es).err = none ∧
-    ∃ D N, (D.map (canonEv M)).Perm (derivedSpecD items i0 Pi S) ∧
-      EmRel (runNested items es).out N ∧ N.Perm (specE items.length D) := by
+    ∃ N, EmRel (runNested items es).out N ∧ N.Perm (specE items.length (derivedSpecD items i0 Pi S)) := by
   have hin : (es.filter (isInner Pi)).Perm (S.filter (isInner Pi)) := hp.filter _
   have hwfI := WFDot_perm hin h.inner
   have hRwf := wf_of_WFDot hwfI
@@ -500,10 +569,35 @@ theorem nested_dot_any_order {Pi M : Nat} {plains : List Nat} {items : List Item
       simp only [plainEv, Elem.ofTok, List.mem_singleton] at hy
       rw [hy]; rfl
   obtain ⟨hE, N, hN1, hN2⟩ := dotElems_any_order _ _ hwfD hokD (List.Perm.refl _)
-  refine ⟨?_, _, N, hD, ?_, hN2⟩
+  -- the ports of every element the outer combinator is fed are below `M`
+  have hportsD : ∀ x ∈ derived items es [], ∀ y ∈ x.2.toks, y.1 < M := by
+    intro x hx y hy
+    rcases List.mem_append.mp (hsplit.subset hx) with hx | hx
+    · obtain ⟨s, hs', rfl⟩ := List.mem_map.mp hx
+      obtain ⟨x0, hx0, hsx⟩ := hrel0.mem_left hs'
+      obtain ⟨_, _, f3, _, _, _, _⟩ := inner_member_facts h.pos h.inner (hN0.subset hx0)
+      exact Nat.lt_of_lt_of_le (f3 y (hsx.subset hy)).2 h.bound.1
+    · obtain ⟨e, he, rfl⟩ := List.mem_map.mp hx
+      simp only [plainEv, Elem.ofTok, List.mem_singleton] at hy
+      rw [hy]
+      exact h.bound.2 e (hp.subset (List.mem_filter.mp he).1)
+  -- sort the entries of the picked elements by port
+  let gE : Elem → Elem := fun e => ⟨e.tag, normEmit M e.toks⟩
+  have hgperm : ∀ x ∈ N, ∀ e ∈ x.2, (gE e).toks.Perm e.toks := by
+    intro x hx e he
+    have hx' := hN2.subset hx
+    simp only [specE, List.mem_map] at hx'
+    obtain ⟨κ, _, rfl⟩ := hx'
+    obtain ⟨d, hd, rfl⟩ := mem_picks he
+    exact normEmit_perm M _ (hportsD d hd)
+  have hcanon : (derived items es []).map (canonEv M) = (derived items es []).map (fun x => (x.1, gE x.2)) := rfl
+  refine ⟨?_, N.map (fun x => (x.1, x.2.map gE)), ?_, ?_⟩
   · rw [runNested_err _ _ (innerOK_dot hs es [] (by simpa using herr0))]
     exact hE
   · rw [runNested_out]
-    exact hN1
+    exact hN1.canon gE hgperm
+  · refine (hN2.map _).trans ?_
+    rw [← specE_map gE (fun _ => rfl), ← hcanon]
+    exact specE_perm hD hwfS
 
 end SFV.Comb
